@@ -258,11 +258,32 @@ def family(name, n):
         return "Feature: f\n Scenario Outline: s\n  Given <a>\n" + (" @e\n\n Examples:\n  | a |\n  | 1 |\n") * n
     if name == "whitespace-tag-errors":
         return F + " @a b\n" * n
+    # single long lines (n characters): nothing may blow up in the line-level splitters either
+    if name == "row-long-open-last-cell":
+        return F + "   | a | " + "x" * n + "\n"
+    if name == "row-many-escapes":
+        return F + "   | " + "\\\\" * n + " | " + "\\n" * n + " |\n"
+    if name == "row-many-cells":
+        return F + "   |" + " c |" * n + "\n"
+    if name == "tag-line-many-tags":
+        return F + " " + "@t " * n + "\n Scenario: t\n"
+    if name == "tag-line-long-comment":
+        return F + " @t #" + " x" * n + "\n Scenario: t\n"
+    if name == "long-step-text":
+        return F + "  And " + "word " * n + "\n"
+    if name == "long-blank-line":
+        return F + " " * n + "\n" + "\t" * n + "x\n"
+    if name == "language-header-long":
+        return "#" + " " * n + "language" + " " * n + ":" + " " * n + "en" + " " * n + "\nFeature: f\n"
+    if name == "docstring-many-escapes":
+        return F + '   """\n   ' + '\\"\\"\\"' * n + "\n   \"\"\"\n"
     raise KeyError(name)
 
 
 FAMILIES = ["tag-run-before-scenario", "tag-run-before-examples", "tag-run-before-rule", "tags-and-comments", "tag-garbage-alternating", "tag-run-no-follower",
-            "scenarios-each-with-tag-run", "long-table", "long-docstring", "long-description", "examples-with-tags", "whitespace-tag-errors"]
+            "scenarios-each-with-tag-run", "long-table", "long-docstring", "long-description", "examples-with-tags", "whitespace-tag-errors",
+            "row-long-open-last-cell", "row-many-escapes", "row-many-cells", "tag-line-many-tags", "tag-line-long-comment", "long-step-text", "long-blank-line",
+            "language-header-long", "docstring-many-escapes"]
 
 
 def check_scaling(case, stats):
